@@ -120,6 +120,8 @@ _SIMPLE = {
     "PSink": "FloatPayloadSink",
     "SliceMul": "slice:FloatMultiplyOperation:FloatDataCollection",
     "SliceMulDef": "slice:FloatMultiplyOperationWithDefault:FloatDataCollection",
+    "CtxWP": "VCtxScaleWrite",
+    "SliceCtxW": "slice:VCtxScaleWrite:FloatDataCollection",
 }
 
 # final component of processor.ref expected in a SER for each kind (C07)
@@ -128,7 +130,7 @@ REF_CLASS = {
     "Mul": "FloatMultiplyOperation", "MulDef": "FloatMultiplyOperationWithDefault", "Add": "FloatAddOperation",
     "Sq": "FloatSquareOperation", "Sum": "FloatCollectionSumOperation", "Sink": "FloatDataSink",
     "CtxW": "VCtxWriteOperation", "CtxWBad": "VCtxBadWriteOperation", "Boom": "VBoomOperation",
-    "Abort": "VAbortOperation", "Probe": "FloatCollectValueProbe",
+    "Abort": "VAbortOperation", "Probe": "FloatCollectValueProbe", "CtxWP": "VCtxScaleWrite",
 }
 
 
@@ -168,9 +170,9 @@ def g_node(node: Dict[str, Any]) -> Dict[str, Any]:
                 "collection": "FloatDataCollection",
             }},
         }
-    elif kind == "SweepMul":
+    elif kind in ("SweepMul", "SweepCtxW"):
         out = {
-            "processor": "FloatMultiplyOperation",
+            "processor": "FloatMultiplyOperation" if kind == "SweepMul" else "VCtxScaleWrite",
             "derive": {"parameter_sweep": {
                 "parameters": {"factor": "t"},
                 "variables": {"t": {"values": [float(x) for x in node["sw"]]}},
